@@ -150,6 +150,13 @@ def scenarios(tier):
     sc.append({"name": "udp-subnet", "args": ["udp", "--json", "-p", "53,161"] + COMMON + ["--exit-delay", "500ms", "10.9.3.0/31"], "files": {"empty": ""},
                "inject": [{"bytes": icmp_reply(a(0), 3, 3, 55), "afterProbe": 1, "delayMs": 40}],
                "expect": packet_expect("udp", target(net30, 31, [rng(53, 53), rng(161, 161)]), [[rng(53, 53), rng(161, 161)]], [4], 500)})
+    # 6'. non-default probe options through the commands' flag parsing: the frames are still the reference encodings (C05)
+    sc.append({"name": "icmp-options", "args": ["icmp", "--json", "--ttl", "5", "--type", "13", "--code", "0", "--ipflags", "df,mf", "--payload", "abc\\x00\\xff"] + COMMON + ["--exit-delay", "300ms", "10.9.3.0/31"],
+               "files": {"empty": ""}, "fillOpts": {"ttl": 5, "ipflags": 3, "ipproto": 1, "iplen": 0, "type": 13, "code": 0, "payload": [97, 98, 99, 0, 255], "defaultPayload": False},
+               "expect": packet_expect("icmp", target(net30, 31), [[]], [2], 300)})
+    sc.append({"name": "udp-options", "args": ["udp", "--json", "-p", "53", "--ttl", "200", "--ipflags", "", "--payload", "\\x01\\x02x"] + COMMON + ["--exit-delay", "300ms", "10.9.3.0/31"],
+               "files": {"empty": ""}, "fillOpts": {"ttl": 200, "ipflags": 0, "ipproto": 17, "iplen": 0, "payload": [1, 2, 120]},
+               "expect": packet_expect("udp", target(net30, 31, [rng(53, 53)]), [[rng(53, 53)]], [2], 300)})
     # 7. a file of ip/port pairs without -p
     pairs = [{"ip": a(1), "port": 80}, {"ip": a(2), "port": 8080}, {"ip": [10, 9, 7, 7], "port": 22}]
     sc.append({"name": "tcp-file-pairs", "args": ["tcp", "syn", "--json", "-i", "vfw0", "-f", "{dir}/pairs"] + COMMON + ["--exit-delay", "500ms"],
@@ -366,6 +373,7 @@ def fill_events(events):
         if x["kind"] != "packet" or x["scan"] not in DEFAULT_OPTS or "--flags" in e["args"] and x["scan"] != "tcpflags":
             continue
         kind, opts = DEFAULT_OPTS[x["scan"]]
+        opts = e.get("fillOpts") or opts
         off = 0 if x["vpn"] else 14
         for k, p in enumerate(e["probes"]):
             b = p["bytes"]
@@ -499,6 +507,7 @@ def run_wire(ctx, select=None, label="wire", focus="all", extra=None):
     for e in events:
         s = byid[e["id"]]
         e["expect"] = s["expect"]
+        e["fillOpts"] = s.get("fillOpts") or {}
         e["records"] = [decode_record(s["expect"]["scan"], l) for l in e["stdout"]]
         e["conns"] = [{"ip": [int(x) for x in k.split(":")[0].split(".")], "port": int(k.split(":")[1]), "n": v} for k, v in sorted(e["conns"].items())]
     ctx.cov["traces_validated_against_impl"] += len(events)
